@@ -238,6 +238,10 @@ def run_e2e(res, tier, seed, tag, n_crates, cfg, flavours=("td_string", "td_disp
     rng = rng_for(seed, tag, "e2e")
     crates = []
     projs = [projects.gen_valid_project(rng, cfg) for _ in range(n_crates)]
+    # the first project (every fourth in the thorough tier): an inheritance chain whose children leave half of their keys to the parent
+    icfg = GenCfg(**{**cfg.__dict__, "n_locales": (3, 4), "force_inherits": True})
+    for i in range(0, n_crates, 4):
+        projs[i] = projects.gen_valid_project(rng, icfg)
     ptable = workload.plural_table_for(projs)
     for i, p in enumerate(projs):
         fmt = fmts[i % len(fmts)]
